@@ -885,16 +885,11 @@ regp_recv(RegP *p, RPMaybeFrame *mf)
     case EBUSY:
         /* Send EBUSY reply, based on fallback buffer */
         return early_ebusy(p, &fb);
-    case ENOMEM: {
-        /* Send ERXOVERFLOW reply, based on fallback buffer. The frame object
-         * at the start of the block is not parsed at this point, so take the
-         * header octets from where the sink stored the raw frame. */
-        const size_t have = cs.buffer.used - sizeof(RPFrame);
-        byte_buffer_rewind(&fb);
-        byte_buffer_add(&fb, cs.buffer.data + sizeof(RPFrame),
-                        have < RP_HEADER_SIZE ? have : RP_HEADER_SIZE);
+    case ENOMEM:
+        /* Send ERXOVERFLOW reply, based on fallback buffer: The sink keeps
+         * the head of the stream there, including octets of the header the
+         * block had no room for. */
         return early_erxoverflow(p, &fb);
-    }
     default:
         /* Unexpected error. Really shouldn't happen. */
         return -EINVAL;
